@@ -101,7 +101,17 @@ partial def loopIO (h : IO.FS.Stream) (st : OSt) : IO Unit := do
     | _, _ => loopIO h { st with bad := true }
   | ["hyp"] =>
     if st.bad then IO.println "bad-record hyp" else
-    IO.println s!"hyp tuple={b01 (tupleConsistent G)} entries={showNats (entryArgs G)} points={showNats (pointArgs G)}"
+    IO.println s!"hyp tuple={b01 (tupleConsistent G)} wk={b01 (wellKinded G)} intra={b01 (intraEdges G)} entries={showNats (entryArgs G)} points={showNats (pointArgs G)}"
+    loopIO h st
+  | ["reach", id, entry, fuel] =>
+    match entry.toNat?, fuel.toNat? with
+    | some e, some f =>
+      if st.bad then IO.println s!"bad-record reach {id}" else
+      let ks := greach G st.cfg f e
+      let leaves := ((ks.map (·.1)).filter (staticLeaf G st.cfg)).eraseDups
+      let leaves := if staticLeaf G st.cfg e && !leaves.contains e then e :: leaves else leaves
+      IO.println s!"reach {id} keys={ks.length} leaves={showNats leaves}"
+    | _, _ => IO.println s!"bad-record reach {id}"
     loopIO h st
   | ["trace", id, ns] =>
     match parseNats ns with
